@@ -505,11 +505,32 @@ def slice_kernel(modname, qualname, names, guards=True, space=None):
     node, path = get_function_ast(modname, qualname)
     picked = []
     found = set()
+    def assigned_in(block):
+        out = []
+        for b in block:
+            if isinstance(b, ast.If):
+                out += assigned_in(b.body) + assigned_in(b.orelse)
+            else:
+                t = _targets(b)
+                if not t and not isinstance(b, (ast.Pass, ast.Expr)):
+                    out.append(None)
+                out += t
+        return out
+
     for st in node.body:
         tg = _targets(st)
         if tg and all(t in names for t in tg):
             picked.append(st)
             found.update(tg)
+        elif isinstance(st, ast.If) and (st.orelse or not all(
+                isinstance(b, ast.Raise) for b in st.body)):
+            inner = assigned_in(st.body) + assigned_in(st.orelse)
+            # helper names introduced inside the block are fine as long as
+            # the block only assigns and touches at least one wanted name
+            if inner and None not in inner and \
+                    any(t in names for t in inner):
+                picked.append(st)
+                found.update(inner)
         elif guards and isinstance(st, ast.If) and not st.orelse and \
                 all(isinstance(b, ast.Raise) for b in st.body):
             used = set(n.id for n in ast.walk(st.test)
